@@ -43,6 +43,9 @@ def gen_case(rng, quick, i):
         c["kvec"] = kvec
     if i % 3 == 2:
         c["sigma"] = "EH"
+    if i % 4 == 3 or i % 4 == 0 and i > 0:      # fully anisotropic (9-component, non-symmetric) inverse permittivity / permeability: model/YeeFull.v
+        c.pop("sigma", None)
+        c.update(full_eps=True, full_mu=bool(i % 8 >= 4))
     if i % 4 == 1:      # non-uniform grid whose first and last widths agree along every tiled axis
         edges = []
         for a in range(3):
@@ -62,6 +65,12 @@ def seam_case():
             "edges": [[0.0, u, 3 * u], [0.0, u, 2 * u], [0.0, u, 2 * u]], "seam": True}
 
 
+def full_case():
+    """Bloch in all directions with a fully anisotropic medium: the co-location averages of the 9-component update reach across the seam"""
+    return {"shape": [3, 2, 2], "bt": {f"{s_}_{a}": "bloch" for s_ in ("min", "max") for a in "xyz"}, "ncomp": 1, "seed": 21, "steps": 2, "back": 0,
+            "tile": [2, 3, 1], "kvec": [3.0e6, -2.5e6, 0.0], "full_eps": True, "full_mu": True}
+
+
 def thin_cases():
     """one-cell-thick Bloch axes with a non-zero wave-vector component (the collapsed-axis idiom for 2-D runs)"""
     def bt(bloch_axes):
@@ -71,7 +80,7 @@ def thin_cases():
 
 
 def gen_cases(ctx):
-    return [seam_case()] + thin_cases() + [gen_case(ctx.rng, ctx.quick, i) for i in range(ctx.pick(5, 30))]
+    return [seam_case(), full_case()] + thin_cases() + [gen_case(ctx.rng, ctx.quick, i) for i in range(ctx.pick(5, 30))]
 
 
 def run_cases(ctx, cases):
@@ -86,7 +95,10 @@ def coq_expr(case, out):
         o = out[which]
         sc = Y.scene_term(cs, o)
         st = o["states"]
-        parts.append(Y.steps_expr(cs["shape"], sc, [("forwardX", a, b) for a, b in zip(st, st[1:])], Y.exact_ok(cs), scale=max(Y.maxabs(o), 1.0)))
+        if o.get("ieps9") or o.get("imu9"):
+            parts.append(Y.full_steps_expr(cs["shape"], sc, o, [("forward_fullX", a, b) for a, b in zip(st, st[1:])], Y.exact_ok(cs), scale=max(Y.maxabs(o), 1.0)))
+        else:
+            parts.append(Y.steps_expr(cs["shape"], sc, [("forwardX", a, b) for a, b in zip(st, st[1:])], Y.exact_ok(cs), scale=max(Y.maxabs(o), 1.0)))
     return "(" + " && ".join(parts) + ")%bool"
 
 
